@@ -156,11 +156,12 @@ package standard
 //@ reveal rowAttOk rowAttS rowAttT
 //@ requires s != nil && s.store != nil
 //@ requires [nonnil] forall j int :: 0 <= j && j < len(states) ==> states[j] != nil
+//@ requires [distinct] forall i int, j int :: 0 <= i && i < j && j < len(pubKeys) ==> bytes(pubKeys[i]) != bytes(pubKeys[j])
 //@ modifies db
-//@ ensures [written] result == nil ==> len(pubKeys) == len(states) && (forall i int :: 0 <= i && i < len(pubKeys) && (forall j int :: i < j && j < len(pubKeys) ==> bytes(pubKeys[j]) != bytes(pubKeys[i])) ==> wmAttOk(bytes(pubKeys[i])) && wmAttS(bytes(pubKeys[i])) == states[i].SourceEpoch && wmAttT(bytes(pubKeys[i])) == states[i].TargetEpoch)
+//@ ensures [written] result == nil ==> len(pubKeys) == len(states) && (forall i int :: 0 <= i && i < len(pubKeys) ==> wmAttOk(bytes(pubKeys[i])) && wmAttS(bytes(pubKeys[i])) == states[i].SourceEpoch && wmAttT(bytes(pubKeys[i])) == states[i].TargetEpoch)
 //@ ensures [frame] forall k Bytes :: (forall i int :: 0 <= i && i < len(pubKeys) ==> k != attKey(bytes(pubKeys[i]))) ==> ((k in db) <==> (k in old(db))) && db[k] == old(db)[k]
 //@ ensures [partial] result != nil ==> (forall k Bytes :: (((k in db) <==> (k in old(db))) && db[k] == old(db)[k]) || (k in db && (exists i int :: 0 <= i && i < len(pubKeys) && i < len(states) && k == attKey(bytes(pubKeys[i])) && rowAttOk(true, db[k]) && rowAttS(true, db[k]) == states[i].SourceEpoch && rowAttT(true, db[k]) == states[i].TargetEpoch)))
-//@ ensures [partial-rows] result != nil && len(pubKeys) == len(states) ==> (forall i int :: 0 <= i && i < len(pubKeys) && (forall j int :: 0 <= j && j < len(pubKeys) && j != i ==> bytes(pubKeys[j]) != bytes(pubKeys[i])) ==> ((((attKey(bytes(pubKeys[i])) in db) <==> (attKey(bytes(pubKeys[i])) in old(db))) && db[attKey(bytes(pubKeys[i]))] == old(db)[attKey(bytes(pubKeys[i]))]) || (wmAttOk(bytes(pubKeys[i])) && wmAttS(bytes(pubKeys[i])) == states[i].SourceEpoch && wmAttT(bytes(pubKeys[i])) == states[i].TargetEpoch)))
+//@ ensures [partial-rows] result != nil && len(pubKeys) == len(states) ==> (forall i int :: 0 <= i && i < len(pubKeys) ==> ((((attKey(bytes(pubKeys[i])) in db) <==> (attKey(bytes(pubKeys[i])) in old(db))) && db[attKey(bytes(pubKeys[i]))] == old(db)[attKey(bytes(pubKeys[i]))]) || (wmAttOk(bytes(pubKeys[i])) && wmAttS(bytes(pubKeys[i])) == states[i].SourceEpoch && wmAttT(bytes(pubKeys[i])) == states[i].TargetEpoch)))
 //@ ensures [ok] store_ok && len(pubKeys) == len(states) && len(pubKeys) > 0 ==> result == nil
 //@ hint [inj] forall a Bytes, b Bytes :: bnorm(a) && bnorm(b) && attKey(a) == attKey(b) ==> a == b
 //@ loop #1
@@ -185,13 +186,12 @@ package standard
 //@ ensures [mono] forall i int :: 0 <= i && i < len(metadata) && metadata[i] != nil && old(wmAttOk(bytes(metadata[i].PubKey))) ==> wmAttOk(bytes(metadata[i].PubKey)) && wmAttS(bytes(metadata[i].PubKey)) >= old(wmAttS(bytes(metadata[i].PubKey))) && wmAttT(bytes(metadata[i].PubKey)) >= old(wmAttT(bytes(metadata[i].PubKey)))
 //@ ensures [frame] forall k Bytes :: (forall i int :: 0 <= i && i < len(metadata) && metadata[i] != nil ==> k != attKey(bytes(metadata[i].PubKey))) ==> ((k in db) <==> (k in old(db))) && db[k] == old(db)[k]
 //@ hint-after fetchSignBeaconAttestationStates@1 [okall] result1 == nil ==> (forall i int :: 0 <= i && i < len(metadata) ==> wmAttOk(bytes(metadata[i].PubKey)) && result0[i].SourceEpoch == wmAttS(bytes(metadata[i].PubKey)) && result0[i].TargetEpoch == wmAttT(bytes(metadata[i].PubKey)))
-//@ hint-after storeSignBeaconAttestationStates@1 [link] forall i int :: 0 <= i && i < len(metadata) ==> pubKeys[i] == metadata[i].PubKey && metadata[i] != nil
-//@ hint-after storeSignBeaconAttestationStates@1 [pkdistinct] forall i int, j int :: 0 <= i && i < j && j < len(pubKeys) ==> bytes(pubKeys[i]) != bytes(pubKeys[j])
+//@ hint-after before:storeSignBeaconAttestationStates@1 [link] forall i int :: 0 <= i && i < len(metadata) ==> pubKeys[i] == metadata[i].PubKey && metadata[i] != nil
+//@ hint-after before:storeSignBeaconAttestationStates@1 [pkdistinct] forall i int, j int :: 0 <= i && i < j && j < len(pubKeys) ==> bytes(pubKeys[i]) != bytes(pubKeys[j])
 //@ hint-after storeSignBeaconAttestationStates@1 [rows] result == nil ==> (forall i int :: 0 <= i && i < len(pubKeys) ==> wmAttOk(bytes(pubKeys[i])) && wmAttS(bytes(pubKeys[i])) == states[i].SourceEpoch && wmAttT(bytes(pubKeys[i])) == states[i].TargetEpoch)
 //@ hint-after storeSignBeaconAttestationStates@1 [inj] forall a Bytes, b Bytes :: bnorm(a) && bnorm(b) && attKey(a) == attKey(b) ==> a == b
 //@ hint-after storeSignBeaconAttestationStates@1 [okrows] result == nil ==> (forall i int :: 0 <= i && i < len(metadata) ==> wmAttOk(bytes(metadata[i].PubKey)) && wmAttS(bytes(metadata[i].PubKey)) == states[i].SourceEpoch && wmAttT(bytes(metadata[i].PubKey)) == states[i].TargetEpoch)
 //@ hint-after storeSignBeaconAttestationStates@1 [frame] forall k Bytes :: (forall i int :: 0 <= i && i < len(metadata) ==> k != attKey(bytes(metadata[i].PubKey))) ==> ((k in db) <==> (k in old(db))) && db[k] == old(db)[k]
-//@ hint-after storeSignBeaconAttestationStates@1 [pkdistinct2] forall i int, j int :: 0 <= i && i < len(pubKeys) && 0 <= j && j < len(pubKeys) && j != i ==> bytes(pubKeys[j]) != bytes(pubKeys[i])
 //@ hint-after storeSignBeaconAttestationStates@1 [partialpk] result != nil ==> (forall i int :: 0 <= i && i < len(pubKeys) ==> ((((attKey(bytes(pubKeys[i])) in db) <==> (attKey(bytes(pubKeys[i])) in old(db))) && db[attKey(bytes(pubKeys[i]))] == old(db)[attKey(bytes(pubKeys[i]))]) || (wmAttOk(bytes(pubKeys[i])) && wmAttS(bytes(pubKeys[i])) == states[i].SourceEpoch && wmAttT(bytes(pubKeys[i])) == states[i].TargetEpoch)))
 //@ hint-after storeSignBeaconAttestationStates@1 [partial] result != nil ==> (forall i int :: 0 <= i && i < len(metadata) ==> wmAttOk(bytes(metadata[i].PubKey)) && ((wmAttS(bytes(metadata[i].PubKey)) == old(wmAttS(bytes(metadata[i].PubKey))) && wmAttT(bytes(metadata[i].PubKey)) == old(wmAttT(bytes(metadata[i].PubKey)))) || (wmAttS(bytes(metadata[i].PubKey)) == states[i].SourceEpoch && wmAttT(bytes(metadata[i].PubKey)) == states[i].TargetEpoch)))
 //@ loop #1
